@@ -322,8 +322,36 @@ def r70(F):
     return r
 
 
+
+def r12c(F):
+    r = RuleResult("R12c", "the convert expression hands on the converter's text unaltered",
+                   "`convert <fmt> <expr>` evaluates to exactly what the converter wrote into its buffer: the string pushed by "
+                   "Builtins::convert comes from from_utf8 / from_utf8_lossy of that buffer through conversions only - no trim, "
+                   "replace or slice in between (a trailing line break can be content: a YAML block scalar ends in it)", floor=1)
+    name = "ucglib::build::opcode::runtime::Builtins::convert"
+    need(name in F.fns, "Builtins::convert not found")
+    fn = F.fn(name, flat=True)
+    PRIM = "ucglib::build::opcode::Primitive"
+    aggs = [(b, rv) for b, j, pl, rv, m in fn.assigns() if rv["k"] == "agg" and rv.get("adt") == PRIM and rv.get("variant") == "Str"]
+    need(aggs, "Builtins::convert builds no Primitive::Str")
+    n = 0
+    for b, rv in aggs:
+        src = util.source_calls(fn, rv["ops"][0])
+        names = sorted({c[0] for c in src if c[0] != "param"})
+        if not names and any(c[0] == "param" for c in src):
+            continue        # a string handed in by the caller (not the converted text)
+        decoded = [c for c in names if "from_utf8" in c]
+        other = [c.split("::")[-1] for c in names if "from_utf8" not in c]
+        ok = bool(decoded) and not other
+        r.inst("convert:text-verbatim#%d" % n, fn.where(b), ok,
+               "the pushed string is the decoded buffer" if ok else
+               "the converted text goes through %s before it is pushed: `convert yaml {body = \"a\\n\"}` no longer decodes to the value" % (other or ["an unidentified source"]))
+        n += 1
+    need(n, "Builtins::convert: the string built from the converter's buffer was not found")
+    return r
+
 from . import c14 as _c14
 
 from . import c11 as _c11
 
-RULES = [r10, r11, r12, r12b, r64, r64v, r70, _c14.r49t, _c11.r72]
+RULES = [r10, r11, r12, r12b, r12c, r64, r64v, r70, _c14.r49t, _c11.r72]
